@@ -128,6 +128,8 @@ func idStrings(idk string, salt int64) (own, same16, diff string) {
 	return
 }
 
+const safeInj = 512 // payload size every frame writer must accept
+
 const (
 	hangAfter  = 5 * time.Second // no progress for this long = the reader hangs
 	lateWait   = 300 * time.Millisecond
@@ -213,6 +215,8 @@ func driveStream(env *fw.Env, sb *streamBeh) *fw.Trace {
 	defer ta.Close()
 	defer tb.Close()
 	var wEvents []fw.Event
+	var ownRefused bool // an own-tunnel Write on the open stream returned an error or came back short
+	var injErr error
 	wDone := make(chan error, 1)
 	helpers.Add(1)
 	go func() { // the writer script: real FrameStream.Write / CloseWrite / Close, real WriteFrame for injections
@@ -224,8 +228,16 @@ func driveStream(env *fw.Env, sb *streamBeh) *fw.Trace {
 				n := sizeOf(o.C)
 				ret, err := ws.Write(own[pos : pos+n])
 				wEvents = append(wEvents, fw.Event{"ev": "W", "op": "write", "c": o.C, "n": n, "ret": ret, "err": err != nil})
+				// a refused / short Write of a legal size is an observation (judged under Complete),
+				// never a driver error; the stream continues after the bytes that were accepted
 				if o.Exp == "ok" {
-					pos += n // the script's stream position (the judge uses ret)
+					if ret < 0 || ret > n {
+						ret = 0
+					}
+					pos += ret
+					if err != nil || ret != n {
+						ownRefused = true
+					}
 				}
 			case "eof":
 				err := ws.CloseWrite()
@@ -249,11 +261,24 @@ func driveStream(env *fw.Env, sb *streamBeh) *fw.Trace {
 				case "unk": // types FrameStream.Read has no case for: unassigned ones and control-plane ones
 					ty = []byte{0x7f, 0x00, crossnode.FrameTypeTargetReady, crossnode.FrameTypeAck, crossnode.FrameTypeCommand, 0xff}[(int(sb.Salt>>3)+ii)%6]
 				}
-				if err := crossnode.WriteFrame(ta, id, ty, in.payload); err != nil {
-					wDone <- fmt.Errorf("inject: %w", err)
-					return
+				// the injection is harness traffic: if the frame writer refuses the chosen payload size
+				// fall back to a small one; a failure is only a driver error when it cannot be the
+				// consequence of an own-tunnel Write having been refused (decided after the script)
+				err := crossnode.WriteFrame(ta, id, ty, in.payload)
+				fallback := false
+				if err != nil && len(in.payload) > safeInj {
+					in.payload = in.payload[:safeInj]
+					injs[ii-1].payload = in.payload
+					fallback = true
+					err = crossnode.WriteFrame(ta, id, ty, in.payload)
 				}
-				wEvents = append(wEvents, fw.Event{"ev": "Inj", "k": in.k, "idrel": in.idrel, "ty": in.ty, "len": len(in.payload)})
+				if err != nil {
+					if injErr == nil {
+						injErr = fmt.Errorf("inject %s: %w", in.k, err)
+					}
+					continue
+				}
+				wEvents = append(wEvents, fw.Event{"ev": "Inj", "k": in.k, "idrel": in.idrel, "ty": in.ty, "len": len(in.payload), "fallback": fallback})
 			}
 		}
 		wDone <- nil
@@ -425,6 +450,9 @@ loop:
 	tb.Close()
 	if writerErr != nil {
 		return &fw.Trace{Status: fw.DriverError, Note: writerErr.Error()}
+	}
+	if injErr != nil && !ownRefused {
+		return &fw.Trace{Status: fw.DriverError, Note: injErr.Error()}
 	}
 
 	t := &fw.Trace{Status: fw.Realised}
